@@ -151,6 +151,58 @@ def allKinds : List StepKind :=
 
 def stepsPositive (cm : CostModel) : Bool := allKinds.all (kindOK cm)
 
+def Cost1.nonneg : Cost1 → Bool
+  | .const c => decide (0 ≤ c)
+  | .linear i s => decide (0 ≤ i) && decide (0 ≤ s)
+  | .quadratic c0 c1 c2 => decide (0 ≤ c0) && decide (0 ≤ c1) && decide (0 ≤ c2)
+
+def Cost2.nonneg : Cost2 → Bool
+  | .const c => decide (0 ≤ c)
+  | .linearInX i s => decide (0 ≤ i) && decide (0 ≤ s)
+  | .linearInY i s => decide (0 ≤ i) && decide (0 ≤ s)
+  | .linearInY2 i s _ => decide (0 ≤ i) && decide (0 ≤ s)
+  | .linearInXAndY i s1 s2 => decide (0 ≤ i) && decide (0 ≤ s1) && decide (0 ≤ s2)
+  | .withInteraction c00 c10 c01 c11 => decide (0 ≤ c00) && decide (0 ≤ c10) && decide (0 ≤ c01) && decide (0 ≤ c11)
+  | .addedSizes i s => decide (0 ≤ i) && decide (0 ≤ s)
+  | .subtractedSizes i s m => decide (0 ≤ i) && decide (0 ≤ s) && decide (0 ≤ m)
+  | .multipliedSizes i s => decide (0 ≤ i) && decide (0 ≤ s)
+  | .minSize i s => decide (0 ≤ i) && decide (0 ≤ s)
+  | .maxSize i s => decide (0 ≤ i) && decide (0 ≤ s)
+  | .linearOnDiagonal c i s => decide (0 ≤ c) && decide (0 ≤ i) && decide (0 ≤ s)
+  | .constAboveDiagonal c m => decide (0 ≤ c) && m.nonneg
+  | .aboveAndBelowDiagonal _ m => m.nonneg
+  | .constBelowDiagonal c m => decide (0 ≤ c) && m.nonneg
+  | .quadraticInY c0 c1 c2 => decide (0 ≤ c0) && decide (0 ≤ c1) && decide (0 ≤ c2)
+  | .quadraticInXAndY mn _ _ _ _ _ _ => decide (0 ≤ mn)
+  | .constAboveDiagonalIntoQuadratic c mn _ _ _ _ _ _ => decide (0 ≤ c) && decide (0 ≤ mn)
+
+def Cost3.nonneg : Cost3 → Bool
+  | .const c => decide (0 ≤ c)
+  | .addedSizes i s => decide (0 ≤ i) && decide (0 ≤ s)
+  | .linearInX i s => decide (0 ≤ i) && decide (0 ≤ s)
+  | .linearInY i s => decide (0 ≤ i) && decide (0 ≤ s)
+  | .linearInZ i s => decide (0 ≤ i) && decide (0 ≤ s)
+  | .quadraticInZ c0 c1 c2 => decide (0 ≤ c0) && decide (0 ≤ c1) && decide (0 ≤ c2)
+  | .expMod c00 c11 c12 => decide (0 ≤ c00) && decide (0 ≤ c11) && decide (0 ≤ c12)
+  | .literalInYorLinearInZ i s => decide (0 ≤ i) && decide (0 ≤ s)
+  | .linearInMaxYZ i s => decide (0 ≤ i) && decide (0 ≤ s)
+  | .linearInYandZ i s1 s2 => decide (0 ≤ i) && decide (0 ≤ s1) && decide (0 ≤ s2)
+
+def Cost4.nonneg : Cost4 → Bool
+  | .const c => decide (0 ≤ c)
+  | .linearInU i s => decide (0 ≤ i) && decide (0 ≤ s)
+
+def CostFun.nonneg : CostFun → Bool
+  | .one f => f.nonneg
+  | .two f => f.nonneg
+  | .three f => f.nonneg
+  | .four f => f.nonneg
+  | .six c => decide (0 ≤ c)
+
+/-- decidable: no builtin costing function has a negative coefficient (or, for the quadratic
+two-variable shapes, a negative floor) -/
+def builtinsNonneg (cm : CostModel) : Bool := cm.builtin.all (fun p => p.2.1.nonneg && p.2.2.nonneg)
+
 -- ------------------------------------------------------------------ size measures
 /-- `integer_to_ex_mem` -/
 def integerExMem (i : Int) : Int := if i = 0 then 1 else (i.natAbs.log2 / 64 + 1 : Nat)
